@@ -13,6 +13,7 @@ import (
 	"strconv"
 	"sync"
 	"sync/atomic"
+	"time"
 
 	"verifharness/cmd/c01/vol"
 	"verifharness/hx"
@@ -38,7 +39,7 @@ func do(env *vol.Env, f []string) []string {
 		switch op {
 		case "w":
 			return env.Write(u64(a[0]), uint32(u64(a[1])), vol.ParseContent(a[2:10]), false)
-		case "wf":
+		case "wf", "wx":
 			return env.Write(u64(a[0]), uint32(u64(a[1])), vol.ParseContent(a[2:10]), true)
 		case "d":
 			return env.Delete(u64(a[0]), uint32(u64(a[1])))
@@ -57,13 +58,70 @@ func do(env *vol.Env, f []string) []string {
 type history struct {
 	kind    string
 	batched bool
+	fault   bool // the fixed fsync-failure scenario (see runFault)
 	prefix  [][]string
 	scripts [][][]string
 	ids     []uint64
 	ck      uint32
 }
 
+// runFault: a batched write whose fsync blocks and then fails (the worker rolls its batch back)
+// while an immediate write to ANOTHER id arrives. The immediate write is acknowledged, so it
+// must be readable afterwards, and so must the blob uploaded before. The failed batched write
+// is recorded as `wx` (expected output: err) and takes no part in the linearization.
+func (h *history) runFault() []line {
+	env := &vol.Env{}
+	defer env.Close()
+	if err := env.Reset(h.kind, ""); err != nil {
+		return []line{{"reset", []string{h.kind, "-"}, []string{"err"}}}
+	}
+	out := []line{{"reset", []string{h.kind, "-"}, []string{"ok"}}}
+	env.Stopping()
+	out = append(out, line{"stop", nil, []string{"ok"}})
+	var clock int64
+	var mu sync.Mutex
+	var calls []call
+	one := func(client int, f []string) {
+		inv := atomic.AddInt64(&clock, 1)
+		outs := do(env, f)
+		ret := atomic.AddInt64(&clock, 1)
+		mu.Lock()
+		calls = append(calls, call{client, inv, ret, f, outs})
+		mu.Unlock()
+	}
+	wr := func(op string, id uint64, data string) []string {
+		return append([]string{op, hx.U(id), "7"}, vol.ContentArgs(&vol.Content{Data: []byte(data)})...)
+	}
+	one(0, wr("w", 1, "before"))
+	entered, release := env.InjectSyncFault()
+	out = append(out, line{"fault", []string{"first-sync-blocks-then-fails"}, []string{"ok"}})
+	var wg sync.WaitGroup
+	wg.Add(2)
+	go func() { defer wg.Done(); one(1, wr("wx", 2, "batched")) }()
+	<-entered
+	done3 := make(chan struct{})
+	go func() { defer wg.Done(); one(2, wr("w", 3, "immediate")); close(done3) }()
+	select { // on the unchanged tree the immediate write waits for the worker's critical section
+	case <-done3:
+	case <-time.After(200 * time.Millisecond):
+	}
+	release()
+	wg.Wait()
+	one(0, []string{"r", "3", "7"})
+	one(0, []string{"r", "1", "7"})
+	one(0, []string{"hr", "3", "7"})
+	sort.Slice(calls, func(i, j int) bool { return calls[i].inv < calls[j].inv })
+	for _, c := range calls {
+		args := append([]string{strconv.Itoa(c.client), hx.I(c.inv), hx.I(c.ret)}, c.f...)
+		out = append(out, line{"c", args, c.outs})
+	}
+	return append(out, line{"end", nil, []string{"ok"}})
+}
+
 func (h *history) run() []line {
+	if h.fault {
+		return h.runFault()
+	}
 	env := &vol.Env{}
 	defer env.Close()
 	var out []line
@@ -212,6 +270,10 @@ func fromOps(ops [][]string) []*history {
 			if h != nil {
 				h.batched = true
 			}
+		case "fault":
+			if h != nil {
+				h.fault = true
+			}
 		case "c":
 			if h != nil && len(f) > 5 {
 				c, _ := strconv.Atoi(f[1])
@@ -240,7 +302,11 @@ func main() {
 	var hs []*history
 	if a.Ops != "" {
 		for _, h := range fromOps(hx.ReadOps(a.Ops)) {
-			for k := 0; k < 50; k++ {
+			reps := 50
+			if h.fault {
+				reps = 5 // each costs the 200 ms wait
+			}
+			for k := 0; k < reps; k++ {
 				hs = append(hs, h)
 			}
 		}
@@ -248,6 +314,9 @@ func main() {
 		rng := hx.NewRng(a.Seed)
 		for i := 0; i < a.N(500); i++ {
 			hs = append(hs, genHistory(rng, i))
+			if i%25 == 0 {
+				hs = append(hs, &history{kind: []string{"mem", "ldb"}[(i/25)%2], fault: true})
+			}
 		}
 	}
 	// histories run in parallel on separate stores; segments are written in order
